@@ -164,8 +164,15 @@ func (s *triplestore) adjacent(node uint64, direction graph.Direction) cardinali
 				nodes.Add(edge.Start)
 
 			default:
-				nodes.Add(edge.End)
-				nodes.Add(edge.Start)
+				// Both directions: the adjacent node is the opposite endpoint of the edge. The node itself is
+				// adjacent only through a self loop.
+				if edge.Start == node {
+					nodes.Add(edge.End)
+				}
+
+				if edge.End == node {
+					nodes.Add(edge.Start)
+				}
 			}
 		}
 
@@ -291,6 +298,17 @@ func (s *triplestoreProjection) EachAdjacentEdge(node uint64, direction graph.Di
 
 func (s *triplestoreProjection) EachAdjacentNode(node uint64, direction graph.Direction, delegate func(adjacent uint64) bool) {
 	s.EachAdjacentEdge(node, direction, func(next Edge) bool {
-		return delegate(next.Pick(direction))
+		switch direction {
+		case graph.DirectionOutbound, graph.DirectionInbound:
+			return delegate(next.Pick(direction))
+
+		default:
+			// Both directions: report the opposite endpoint of the edge; a self loop reports the node once
+			if next.Start == node {
+				return delegate(next.End)
+			}
+
+			return delegate(next.Start)
+		}
 	})
 }
